@@ -533,6 +533,8 @@ class Fn:
 
 _FN_HEAD = re.compile(r'^fn (.+?)\((.*)\) -> (.+) \{$')
 _CONST_HEAD = re.compile(r'^(const|static|static mut) (.+?): (.+) = \{$')
+_CONST_ONE_LINE = re.compile(r'^const ([^ ]+): (.+?) = const (.+);$')
+_INLINE_CONST_HEAD = re.compile(r'^()([^ ]+::\{constant#\d+\}): (.+) = \{$')
 _PROMOTED = re.compile(r'^(.*)::promoted\[(\d+)\]$')
 
 
@@ -558,9 +560,25 @@ def parse_mir(text):
                 f.arg_types.append(a[k + 1:].strip())
             f.ret_type = m.group(3)
         else:
+            m1 = _CONST_ONE_LINE.match(l)
+            if m1:
+                # `const NAME: T = const V;` - a constant printed on one line
+                f = Fn()
+                f.name = m1.group(1)
+                f.kind = 'const'
+                f.nargs = 0
+                f.arg_types = []
+                f.ret_type = m1.group(2)
+                f.blocks[0] = [parse_stmt('_0 = const %s;' % m1.group(3)), parse_stmt('return;')]
+                f.text_line = i + 1
+                fns.append(f)
+                i += 1
+                continue
             m = _CONST_HEAD.match(l)
+            if m is None and _INLINE_CONST_HEAD.match(l):
+                m = _INLINE_CONST_HEAD.match(l)
             if m:
-                body = l[len(m.group(1)) + 1:-4]          # "NAME: TYPE"
+                body = l[len(m.group(1)) + 1:-4] if m.re is _CONST_HEAD else l[:-4]          # "NAME: TYPE"
                 depth = 0
                 k = None
                 for j, ch in enumerate(body):
